@@ -13,6 +13,7 @@ mod c09;
 mod c10;
 mod c12;
 mod c13;
+mod c14;
 mod c16;
 mod c17;
 mod util;
@@ -35,6 +36,7 @@ fn main() {
         ("search", "c10") => c10::search(&args[3..]),
         ("search", "c12") => c12::search(&args[3..]),
         ("search", "c13") => c13::search(&args[3..]),
+        ("search", "c14") => c14::search(&args[3..]),
         ("search", "c17") => c17::search(&args[3..]),
         ("run", path) => {
             // manual triage helper: replay run <source file> [literal args..]  (compile, evaluate, print the result literal)
@@ -78,6 +80,7 @@ fn main() {
                 "c08-match" => c08::replay(&text),
                 "c12-consts" => c12::replay(&text),
                 "c13-join" => c13::replay(&text),
+                "c14-program" => c14::replay(&text),
                 "c17-illtyped" => c17::replay(&text),
                 "c16-circuit" | "c10-conversion" => {
                     println!("{text}");
